@@ -314,7 +314,13 @@ func (d Duration) Binary(op syntax.Token, y starlark.Value, side starlark.Side) 
 			if f == 0 {
 				return nil, fmt.Errorf("%s division by zero", d.Type())
 			}
-			return Duration(float64(x.Nanoseconds()) / f), nil
+			// The quotient must be representable (and not NaN).
+			q := float64(x.Nanoseconds()) / f
+			const limit = float64(1 << 63)
+			if !(-limit <= q && q < limit) {
+				return nil, fmt.Errorf("duration out of range: %s / %v", d, y)
+			}
+			return Duration(q), nil
 		}
 
 	case syntax.SLASHSLASH:
